@@ -202,7 +202,9 @@ protected:
       }
     }
 
-    strCurr[lenCurr - 1] = 0;
+    // The final maxchar becomes the end of the string: it is not a char of it
+    lenCurr--;
+    strCurr[lenCurr] = 0;
   }
 };
 
